@@ -122,6 +122,8 @@ def judge(pid, scenarios, owned, nontrivial, tlc_mod, cfg=None, module='FBTrace.
             out.machinery.append((t['id'], t['harness_error']))
         elif t.get('unjudged'):
             out.unjudged = getattr(out, 'unjudged', 0) + 1      # racing call fenced half-way: not judged (DESIGN C17)
+            if t.get('unjudged_kf'):
+                out.known.append((t['unjudged_kf'], t['id']))   # ... which is an open known finding of its own
         else:
             good.append(t)
     verdicts, st = tlc_mod.validate(good, jobs=procs, cfg=cfg, module=module, open_kf=open_kf_names())
